@@ -126,6 +126,7 @@ def _axioms_of(f):
             if z3.is_app(t) and t.decl().name() == "tyof" and z3.is_int_value(k) and k.as_long() in synced:
                 # only references to synced nodes are instances of synced classes (Inv.node)
                 ax.append(z3.Implies(e, smt.is_VRef(t.children()[0])))
+    ax.extend(row_axioms(f))
     from .stdlib_spec import stdlib_axioms
     ax.extend(stdlib_axioms([f]))
     ax.extend(path_axioms(f))
@@ -138,6 +139,57 @@ def _axioms_of(f):
                 extra.append(z3.Implies(smt.is_VNone(t), e == T("NoneType")))
                 extra.append(z3.Implies(smt.is_VStr(t), e == T("str")))
     return ax + extra, need_ground
+
+
+def row_axioms(f):
+    """Read-over-write for the dict operation symbols [SPEC-BUILTIN]:
+         has(set(c,k,x), j) = (j = k or has(c, j))      get(set(c,k,x), j) = ite(j = k, x, get(c, j))
+         has(del(c,k), j)   = (j != k and has(c, j))    j != k  =>  get(del(c,k), j) = get(c, j)
+         not has(empty, j)
+    instantiated (recursively down chains of writes) at every occurring read."""
+    ax = []
+    done = set()
+    work = []
+    for e in smt.subterms([f]):
+        if z3.is_app(e) and e.decl().name() in ("dict_has", "dict_get") and e.num_args() == 2:
+            work.append((e.decl().name(), e.children()[0], e.children()[1]))
+    while work:
+        kind, c, j = work.pop()
+        key = (kind, c.get_id(), j.get_id())
+        if key in done:
+            continue
+        done.add(key)
+        if not z3.is_app(c):
+            continue
+        nm = c.decl().name()
+        if nm == "dict_set":
+            c0, k, x = c.children()
+            if kind == "dict_has":
+                ax.append(bs.dict_has(c, j) == z3.Or(j == k, bs.dict_has(c0, j)))
+            else:
+                ax.append(bs.dict_get(c, j) == z3.If(j == k, x, bs.dict_get(c0, j)))
+            work.append((kind, c0, j))
+        elif nm == "dict_del":
+            c0, k = c.children()
+            if kind == "dict_has":
+                ax.append(bs.dict_has(c, j) == z3.And(j != k, bs.dict_has(c0, j)))
+            else:
+                ax.append(z3.Implies(j != k, bs.dict_get(c, j) == bs.dict_get(c0, j)))
+            work.append((kind, c0, j))
+        elif nm == "dict_empty":
+            if kind == "dict_has":
+                ax.append(z3.Not(bs.dict_has(c, j)))
+        elif nm == "if" or c.decl().kind() == z3.Z3_OP_ITE:
+            _, a, b = c.children()
+            work.append((kind, a, j))
+            work.append((kind, b, j))
+        elif c.decl().kind() == z3.Z3_OP_SELECT:
+            # a cell / view read through a chain of array stores: follow the stored values
+            arr = c.children()[0]
+            while z3.is_app(arr) and arr.decl().kind() == z3.Z3_OP_STORE:
+                work.append((kind, arr.children()[2], j))
+                arr = arr.children()[0]
+    return ax
 
 
 def path_axioms(f):
